@@ -42,3 +42,38 @@ Proof.
   { unfold send_one. rewrite Hx1s, Hx1m, Hh. destruct (0 <? c_resend (sched_ctx x1 p)); repeat split; reflexivity. }
   destruct Hone as (A & B & C). rewrite C. auto.
 Qed.
+
+(* ---- no retransmission once the reply has arrived ---- *)
+Lemma aget_set_ctx_same s c x : aget c (ctxs (set_ctx s c x)) = Some x.
+Proof. cbn. apply aget_aset_same. Qed.
+
+(* for EVERY state: when a reply that matches a registered request arrives, the context's stored request is dropped, so
+   from then on its retry timer -- whichever id it carries -- re-sends nothing *)
+Theorem no_resend_after_reply : forall fixed s p a b c' d payload id cx,
+  wire_key fixed (be_dec [a; b; c'; d]) = Some id ->
+  aget id (ctxByID s) = Some cx ->
+  (exists x, aget cx (ctxs (cancel_send s cx)) = Some x) ->
+  let s' := pipe_recv fixed s p (a :: b :: c' :: d :: payload) in
+  (exists x', aget cx (ctxs s') = Some x' /\ c_reqMsg x' = None /\ c_repMsg x' = Some (id, payload)) /\
+  forall id', resend_message s' cx id' = s'.
+Proof.
+  intros fixed s p a b c' d payload id cx Hk Hreg [x Hx] s'.
+  assert (Hs' : exists x', aget cx (ctxs s') = Some x' /\ c_reqMsg x' = None /\ c_repMsg x' = Some (id, payload)).
+  { unfold s', pipe_recv. rewrite Hk.
+    set (s1 := if existsb (N.eqb p) (readyQ s) then _ else s).
+    assert (H1 : ctxByID s1 = ctxByID s) by (unfold s1; destruct (existsb (N.eqb p) (readyQ s)); reflexivity).
+    assert (H2 : cancel_send s1 cx = (if existsb (N.eqb p) (readyQ s) then upd_readyQ (cancel_send s cx) (readyQ s1) else cancel_send s cx)).
+    { unfold s1. destruct (existsb (N.eqb p) (readyQ s)); [|reflexivity].
+      unfold cancel_send. cbn [ctxs upd_readyQ]. destruct (aget cx (ctxs s)) as [y|]; [|reflexivity]. destruct (c_queued y); reflexivity. }
+    assert (H3 : aget cx (ctxs (cancel_send s1 cx)) = Some x).
+    { rewrite H2. destruct (existsb (N.eqb p) (readyQ s)); exact Hx. }
+    rewrite H1, Hreg, H3.
+    eexists. split; [cbn; apply aget_aset_same|]. split; reflexivity. }
+  split; [exact Hs'|].
+  destruct Hs' as (x' & Hx' & Hm & _). intro id'. unfold resend_message. rewrite Hx', Hm.
+  rewrite Bool.andb_false_r. reflexivity.
+Qed.
+
+(* the retry timer armed with a transmission is due exactly one retry interval later (model clock) *)
+Lemma arm_due s c k ms : exists tm, In tm (timers (fst (arm s c k ms))) /\ tm_id tm = snd (arm s c k ms) /\ tm_due tm = now s + ms /\ tm_kind tm = k /\ tm_ctx tm = c.
+Proof. unfold arm. cbn. eexists. split; [apply in_or_app; right; left; reflexivity|]. cbn. auto. Qed.
